@@ -167,14 +167,32 @@ def known_class(ev, case, build):
     applies while its entry is OPEN — once the entry is `fixed`, the same crash is a violation again."""
     global OPEN_KEYS
     if OPEN_KEYS is None:
-        OPEN_KEYS = {e.get("key") for e in c.open_known(PID)}
+        OPEN_KEYS = {e.get("key") for e in open_known_here()}
     k = _known_class(ev, case, build)
     return k if k in OPEN_KEYS else None
+
+
+def open_known_here():
+    """the open entries of known_findings.json (generated by tools/mkmanifest.py) plus the open entries of
+    known/C01.json that the generated file does not list yet"""
+    out = list(c.open_known(PID))
+    have = {e.get("id") for e in c.load_known(PID)}
+    try:
+        with open(os.path.join(c.VERIF, "known", "C01.json")) as f:
+            for e in json.load(f):
+                if e.get("status") == "open" and e.get("id") not in have:
+                    out.append(e)
+    except (OSError, ValueError):
+        pass
+    return out
 
 
 def _known_class(ev, case, build):
     t = text_of_case(case)
     msg, f, typ = ev["msg"], ev["file"], ev["type"]
+    if typ == "SPAN" and msg == "report-omits-located-line-nonascii":
+        # decided exactly by the harness: the attached text has multi-byte characters at or before the location
+        return "report-location-counted-in-characters"
     if typ == "PANIC" and f == "blots-core/functions.rs" and "Option::unwrap" in ev["raw"] and "None" in ev["raw"] \
             and re.search(r"\b(median|percentile)\b", t):
         return "median-percentile-nan"
@@ -294,6 +312,14 @@ def do_replay(path, harn, clis):
     print(json.dumps(rp, indent=1)[:3000])
     if rp.get("no_failing_input_found"):
         return 0
+    if rp.get("repl_lines"):
+        import c18 as c18mod
+        import c01_sessions as c01s
+        k = rp["repl_lines"].index(rp["failing_line"])
+        sc = [(l, "fail" if i == k else "def") for i, l in enumerate(rp["repl_lines"])]
+        fails, st = c01s.run_repl_law(clis["release"], [sc], c18mod.repl_session, nproc=1)
+        print("interactive session now: %s %s" % (st, "REPORTS DIFFER" if fails else "reports agree"))
+        return 1 if fails else 0
     case = rp.get("case")
     if not case:
         return 0
@@ -305,7 +331,7 @@ def do_replay(path, harn, clis):
         for ev in evs:
             if not known_class(ev, case, build) and not out_of_scope(ev, case):
                 bad += 1
-    if case["kind"] != "U":
+    if case["kind"] not in ("U", "S"):
         for build, cli in clis.items():
             rc, msg = r.run_cli(cli, case["src"], case.get("inputs"))
             print("blots[%s] now: exit %s %s" % (build, rc, msg[:200]))
@@ -445,6 +471,15 @@ def main(argv):
             cases_rec.append({"kind": "E", "src": defs + "\n" + call, "label": "recursion/" + name})
     run_stream("RECURSION", cases_rec, builds=("release",))
 
+    # ---------------- (d-sessions) several DIFFERENT source texts evaluated one after the other on one thread
+    # against one heap / environment (REPL, wasm host, embedding loop), under four placements of the text in memory;
+    # every other stream evaluates one text per thread, so state left behind by an evaluation is never seen by a
+    # second text (checks/c01_sessions.py, harness kind "S").  Own generator state: the other streams keep theirs.
+    import c01_sessions as c01s
+    cases_s = c01s.sessions(c.Rng(seed ^ 0x5E5510), builtins, g.load_corpus(c.REPO), 1500 if quick else 30000)
+    rows_s = run_stream("SESSIONS", cases_s)
+    streams["SESSIONS"]["distribution"] = c01s.distribution(cases_s, [row.get("release") for row in rows_s])
+
     # ---------------- (a) grammar-based
     w = g.WildGen(rng, builtins, 64)
     w.avoid_slow = slow_fmt
@@ -503,7 +538,7 @@ def main(argv):
     bystream = {}
     per_class = {}
     for name, cs, row in all_cases:
-        if cs["kind"] == "U":
+        if cs["kind"] in ("U", "S"):
             continue
         evs = [e for o in row.values() for e in parse_events(o)]
         interesting = False
@@ -559,6 +594,21 @@ def main(argv):
     streams["CLI"] = {"runs": cli_runs, "programs": len(jobs), "format_runs_per_build": len(fmt_src), "outcomes": cli_dist,
                       "wall_s": round(time.time() - t0, 1)}
 
+    # ---------------- the real binary's interactive session (its only entry point that evaluates several texts in one
+    # process; stdin on a pseudo-terminal): a failing line that uses nothing defined earlier prints the same report
+    # as `blots <file>` prints for that line alone
+    t0 = time.time()
+    scripts = c01s.repl_scripts(c.Rng(seed ^ 0x5E5511), 6 if quick else 60)
+    repl_fails, repl_stats = c01s.run_repl_law(cli_r, scripts, c18mod.repl_session, nproc=NPROC)
+    repl_stats["wall_s"] = round(time.time() - t0, 1)
+    streams["REPL-SESSIONS"] = repl_stats
+    c.log("repl sessions %.1fs %s" % (time.time() - t0, repl_stats))
+    for sc, idx, obs, exp in repl_fails[:2]:
+        res.violation("interactive session of the real binary: the error report of line %d differs from the report `blots <file>` "
+                      "prints for the same line alone (the report depends on what was typed before)" % (idx + 1),
+                      {"kind": "repl", "repl_lines": [l for l, _ in sc], "failing_line": sc[idx][0], "observed": obs, "expected": exp,
+                       "rerun": "./check C01 --replay <this file>  (types repl_lines into `blots` on a pseudo-terminal)"})
+
     # ---------------- correspondence: model vs implementation, both overflow semantics
     try:
         tp = time.time()
@@ -599,6 +649,8 @@ def main(argv):
                 "ABORT": "the process aborted (%s) in stage %s" % (ev["msg"], ev["stage"]),
                 "TIMEOUT": "stage %s did not finish within %ds" % (ev["stage"], timeout),
                 "LOST": "a worker lost a case"}.get(ev["type"], ev["type"])
+        if ev["type"] == "SPAN" and ev["msg"] in SESSION_WHAT:
+            what = SESSION_WHAT[ev["msg"]] % ev["stage"]
         small = shrink(harn, case, ev, build) if not build.startswith("cli") else case
         res.violation("%s [%s build]" % (what, build),
                       {"kind": "impl", "case": {k: v for k, v in small.items() if k in ("kind", "src", "inputs", "bits")},
@@ -641,7 +693,7 @@ def main(argv):
     ]
 
     # ---------------- known findings: re-run every witness
-    for e in c.open_known(PID):
+    for e in open_known_here():
         wit = e.get("witness") or {}
         if wit.get("kind") == "ENV-CLOCK":
             hit, why = clock_before_epoch_witness(clis[wit.get("build", "release")], wit.get("src", "time_now()"))
@@ -658,8 +710,42 @@ def main(argv):
     return res.finish()
 
 
+SESSION_WHAT = {
+    "report-omits-located-line": "the rendered report of an error does not show the source line its location starts in (the "
+                                 "location lies outside, or elsewhere in, the text the report is drawn from) (stage %s)",
+    "report-omits-located-line-nonascii": "the rendered report of an error located after multi-byte characters does not show the "
+                                          "source line its location starts in (stage %s)",
+    "foreign-source": "in a session of several source texts the text attached to a reported error is neither the text being "
+                      "evaluated nor an earlier text of the session: the location refers to another text (stage %s)",
+    "differs-from-separate-buffers": "a reported error (message / location / attached text / rendered report) depends on where the "
+                                     "host keeps the source text: reused or re-allocated buffer vs separate live buffers (stage %s)",
+    "differs-from-one-program": "the texts of a session joined into one program give another value, message or text under the "
+                                "reported location than the session itself (stage %s)",
+}
+
+
+def shrink_session(harn, case, ev, build):
+    """drop whole texts of a session while the same class is reported"""
+    target = class_key(ev)
+    try:
+        texts = json.loads(case["src"])
+    except ValueError:
+        return case
+    i = len(texts) - 1
+    while i >= 0 and len(texts) > 1:
+        cand = texts[:i] + texts[i + 1:]
+        trial = dict(case, src=json.dumps(cand, ensure_ascii=False))
+        outs, _ = run_batch(harn[build], [trial], 20)
+        if any(class_key(e2) == target for e2 in parse_events(outs[0])):
+            texts = cand
+        i -= 1
+    return dict(case, src=json.dumps(texts, ensure_ascii=False))
+
+
 def shrink(harn, case, ev, build, budget=60):
     """greedy token deletion keeping the same crash class"""
+    if case["kind"] == "S":
+        return shrink_session(harn, case, ev, build)
     if case["kind"] == "U" or ev["type"] in ("TIMEOUT", "LOST"):
         return case
     target = class_key(ev)
